@@ -154,11 +154,13 @@ def main() -> int:
                     if pn not in mo["properties"]:
                         vd.violation("property_from_nowhere", f"{name}: generated property {pn!r} is declared by no member", w)
                 ev.seen(("C15a", len(sch["allOf"]), tuple(sorted(f for f in cases if f.startswith("allOf")))))
+            from ._ops import derived_local_capture
+            capture = derived_local_capture(man)
             for a, x in actions_results(res):
                 if a["a"] == "roundtrip" and "allOf" in comps.get(a["x"]["ref"].rsplit("/", 1)[-1], {}):
                     ev.count("composed_roundtrips")
                     if not x.get("action_exc"):
-                        judge_roundtrip(vd, ev, a, x, {"doc": {"components": {"schemas": comps}}})
+                        judge_roundtrip(vd, ev, a, x, {"doc": {"components": {"schemas": comps}}}, capture=capture)
             continue
         style = "literal" if le else "enum"
         obs = {}
